@@ -255,6 +255,7 @@ def binS (op : BinOp) (x y : SVal) : Option SRes :=
       if t ≠ t' ∨ t.signed then none else
       match isConst a, isConst b with
       | some x, some y => some (.ok (.bool (.c (decide (x < y)))))
+      | some 0, none => if nonzero b = .top then none else some (.ok (.bool (nonzero b)))     -- `0 < x` (written `x > 0`) is `x != 0`
       | _, _ => none
   | .bxor, .int t a, .int t' b => if t = t' then mkInt t (List.zipWith Src.xor a b) else none
   | .eqq, .int t a, .int t' b =>
